@@ -22,6 +22,10 @@
          | 9                     virtual time advances by network.DialPeerTimeout: every wait / dial times out
          | 10 lim proxy          like 1, but the connection already reports IsClosed() when it is added
          | 11 c allow            Conn.NewStream called directly on connection c (a new call)
+         | 13 lim proxy          like 1, but a Notifiee.Connected handler blocks for this connection (addConn does
+                                 not return; in code order the waiters are woken BEFORE the Connected dispatch, so the
+                                 model treats it exactly like 1)
+         | 14 c                  the blocked Connected handler of connection c returns (no effect on the model)
          | 12 allow force nodial BasicHost.Connect(ctx, {ID: p}) on a real BasicHost over the swarm (a new call,
                                  opts = 1 + 16 + option bits; st 6 = returned nil)
      OBS = nw key cn  m (flags)^m  n (st arg opts)^n  k (a f)^k
@@ -52,7 +56,8 @@ Inductive op :=
 | OExpire
 | OAddClosed (lim proxy : bool)
 | OStartOn (c : nat) (allow : bool)
-| OConnect (allow force nodial : bool).
+| OConnect (allow force nodial : bool)
+| ONop.   (* a blocked Notifiee.Connected handler returns: no effect on the model *)
 
 (* run the lowest-numbered runnable call for one step *)
 Fixpoint first_enabled (s : state) (tid n : nat) : option state :=
@@ -112,6 +117,7 @@ Definition stimulate (s : state) (o : op) : state :=
       do_step (do_step (do_step s (AAppend lim proxy)) (AMark (length (conns s)))) (ANotify (length (conns s)))
   | OStartOn c allow => do_step s (AStartOn c allow)
   | OConnect a f n => do_step s (AStartConn a f n)
+  | ONop => s
   end.
 
 Definition apply_op (s : state) (o : op) : state :=
@@ -311,6 +317,14 @@ Definition connect_ok (cs : list conn_obs) (c : call_obs) : bool :=
   negb (co_dial c && co_onconn c && co_force c && Nat.eqb (co_st c) 6)
   || existsb (fun k => negb (k_proxy k)) cs.
 
+(* clause 11, "waits for a direct connection": nobody is (still) waiting while a
+   usable non-limited connection is listed — whatever else addConn is busy with
+   (e.g. a slow Notifiee.Connected handler), so that a waiter cannot run into its
+   deadline although a direct connection was admitted in time *)
+Definition has_direct (cs : list conn_obs) : bool := existsb (fun k => k_usable k && negb (k_lim k)) cs.
+Definition no_waiter_with_direct (x : obs) : bool :=
+  negb (has_direct (o_conns x)) || Nat.eqb (n_waiting (o_calls x)) 0.
+
 (* 0 = fine, otherwise the number of the violated clause *)
 Definition mon_check (p : obs) (o : op) (x : obs) : nat :=
   if negb (forallb (result_ok (o_conns x)) (o_calls x)) then 1
@@ -323,6 +337,7 @@ Definition mon_check (p : obs) (o : op) (x : obs) : nat :=
   else if negb (keeps_waiting_ok p o x) then 8
   else if negb (limited_err_ok p x) then 9
   else if negb (forallb (connect_ok (o_conns x)) (o_calls x)) then 10
+  else if negb (no_waiter_with_direct x) then 11
   else 0.
 
 Definition obs_init : obs := mkObs 0 false 0 [] [] [].
@@ -425,6 +440,8 @@ Definition decode_op (l : list Z) : option (op * list Z) :=
   | 10 :: lim :: proxy :: r => Some (OAddClosed (zbool lim) (zbool proxy), r)
   | 11 :: c :: a :: r => Some (OStartOn (zn c) (zbool a), r)
   | 12 :: a :: f :: n :: r => Some (OConnect (zbool a) (zbool f) (zbool n), r)
+  | 13 :: lim :: proxy :: r => Some (OAdd (zbool lim) (zbool proxy), r)
+  | 14 :: _ :: r => Some (ONop, r)
   | _ => None
   end.
 
